@@ -1205,7 +1205,12 @@ static const uint8_t *unmarshal_one_fiber(
             if (!no_useval && (int32_t)((instr >> 8) & 0xFF) >= def->slotcount) {
                 janet_panic("fiber stackframe has invalid pc");
             }
-            if (!no_skip && (instr & 0xFF) != JOP_TAILCALL && pcdiff + 1 >= def->bytecode_length) {
+            /* (No frame of a fiber that has finished - dead, errored, user0-4 - is ever continued: a fiber
+             * that failed in its last instruction, a tail call of a non-function say, is a valid image.) */
+            int32_t fstatus = (fiber_flags & JANET_FIBER_STATUS_MASK) >> JANET_FIBER_STATUS_OFFSET;
+            int finished = fstatus == JANET_STATUS_DEAD || fstatus == JANET_STATUS_ERROR ||
+                           (fstatus >= JANET_STATUS_USER0 && fstatus <= JANET_STATUS_USER4);
+            if (!no_skip && !finished && pcdiff + 1 >= def->bytecode_length) {
                 janet_panic("fiber stackframe has invalid pc");
             }
         }
